@@ -256,6 +256,109 @@ def case_lu(g, cache=False):
             "nontrivial": n >= 2}
 
 
+ASSIGN_KINDS = ["elem", "row_m", "col_m", "block_m", "row_s", "col_s", "block_s", "stride_s"]
+
+
+def _apply_assign(A, rs, cs, val):
+    """elementwise definition of A[rs, cs] = val on the exact matrix (rs / cs: int or [start, stop, step])"""
+    n = len(A)
+    rows = list(range(*slice(*rs).indices(n))) if isinstance(rs, list) else [rs]
+    cols = list(range(*slice(*cs).indices(n))) if isinstance(cs, list) else [cs]
+    A = [list(row) for row in A]
+    for a, i in enumerate(rows):
+        for b, j in enumerate(cols):
+            A[i][j] = val["m"][a][b] if "m" in val else val["s"]
+    return A
+
+
+def _gen_assign(g, n, p, cplx):
+    """one assignment to an n x n matrix: (kind, rowspec, colspec, value) with exact new entries"""
+    r = g.r
+    kind = r.choice(ASSIGN_KINDS)
+    ek = r.choice(["int", "dyadic", "decimal", "bigint"])
+    ent = lambda: g.entry(ek, p, cplx)
+    rng = lambda: sorted(r.sample(range(n + 1), 2)) if n >= 1 else [0, 0]
+    if kind == "elem":
+        rs, cs, val = r.randrange(n), r.randrange(n), {"s": ent()}
+    elif kind in ("row_m", "row_s"):
+        rs, cs = r.randrange(n), [None, None, None]
+        val = {"m": [[ent() for _ in range(n)]]} if kind == "row_m" else {"s": ent()}
+    elif kind in ("col_m", "col_s"):
+        rs, cs = [None, None, None], r.randrange(n)
+        val = {"m": [[ent()] for _ in range(n)]} if kind == "col_m" else {"s": ent()}
+    elif kind in ("block_m", "block_s"):
+        (a, b), (c, d) = rng(), rng()
+        rs, cs = [a, b, None], [c, d, None]
+        val = {"m": [[ent() for _ in range(d - c)] for _ in range(b - a)]} if kind == "block_m" else {"s": ent()}
+    else:
+        rs, cs = [r.choice([None, 0, 1]), None, 2], r.choice([[None, None, None], r.randrange(n)])
+        val = {"s": ent()}
+    return kind, rs, cs, val
+
+
+def case_lu_history(g):
+    """factor -> assign (element / row / column / block / strided slice; matrix or scalar value) -> lu(A), ONE matrix object, ONE
+    precision: the defining identity must hold for the CURRENT contents (A._LU filled by lu/LU_decomp must not survive an assignment)"""
+    r = g.r
+    p, n, cls, cplx, A0 = _mk_square(g)
+    steps = []
+    A = A0
+    kinds = []
+    for rnd in range(r.choice([1, 1, 2])):
+        steps.append(["factor", r.choice(["lu", "LU_decomp"])])
+        for _ in range(r.choice([1, 1, 2])):
+            kind, rs, cs, val = _gen_assign(g, n, p, cplx)
+            kinds.append(kind)
+            A = _apply_assign(A, rs, cs, val)
+            steps.append(["set", rs, cs, {k: (toks_of(v) if k == "m" else tok(v)) for k, v in val.items()}])
+    g.note("assign", "+".join(kinds))
+    task = {"op": "lu_history", "prec": p, "cplx": cplx, "A": toks_of(A0), "steps": steps}
+    want = toks_of(A)
+    At = flat(want)
+    R = LA.cert_R(A, p)
+    want_v = [[LA.frac(x) for x in row] for row in A]
+
+    def same(T):
+        return T is not None and "NONFINITE" not in flat(T) and [[LA.frac(LA.untok(t)) for t in row] for row in T] == want_v
+
+    def lines(c, res):
+        ls = {"det": "cert_detexact %d %s" % (n, At)}
+        o = (res or {}).get("ok")
+        if R is not None:
+            ls["cond"] = "cert_cond %d %d %s %s" % (n, p, At, flat(R))
+        if o and "P" in o and same(o.get("Acur")) and not has_nonfinite(o["P"], o["L"], o["U"]):
+            ls["cert"] = "cert_lu %d %d %s %s %s %s" % (n, p, flat(o["P"]), At, flat(o["L"]), flat(o["U"]))
+        return ls
+
+    def judge(c, res, ans):
+        z = _det_is_zero(ans)
+        if z is None:
+            return "undecided", "no exact determinant"
+        if "exc" in res:
+            return "violates", "assignment history raised %s: %s" % (res["exc"], res.get("msg"))
+        o = res["ok"]
+        if not same(o.get("Acur")):
+            return "violates", "contents of A after the assignments differ from their elementwise definition"
+        if "final_exc" in o:
+            if z:
+                return ("ok", None) if o["final_exc"] == "ZeroDivisionError" else \
+                    ("violates", "exactly singular input raised %s (%s), not ZeroDivisionError" % (o["final_exc"], o.get("final_msg")),
+                     "singular_typeerror" if o["final_exc"] == "TypeError" else "singular_other_exception")
+            if ans.get("cond") == "B:1":
+                return "violates", "nonsingular, well-conditioned current contents: lu raised %s: %s" % (o["final_exc"], o.get("final_msg"))
+            return "na", "exception on an input not certified well-conditioned"
+        v = ans.get("cert")
+        if v is None:
+            return "violates", "non-finite entries in the factors"
+        if v == "V:ok":
+            return "ok", None
+        return "violates", ("lu identity/structure fails for the CURRENT contents of A: %s [history on one matrix object at prec %d: %s; "
+                            "earlier factorizations: %s]" % (v, p, " -> ".join(s[0] if s[0] == "factor" else "assign" for s in steps) + " -> lu",
+                                                            ",".join(x for x in o.get("log", []) if x != "set")))
+    return {"task": task, "site": "linalg.lu[assignment-history]", "cls": cls + "/" + "+".join(sorted(set(kinds))), "lines": lines,
+            "judge": judge, "nontrivial": n >= 2}
+
+
 def case_qr(g):
     r = g.r
     p = g.prec()
@@ -425,6 +528,7 @@ def case_matpow(g):
 from fractions import Fraction  # noqa: E402
 
 PROGRAMS = ["lu_solve", "lu_solve/over", "qr_solve", "qr_solve/over", "cholesky_solve", "inverse", "det", "lu", "LU_decomp(via lu)",
+            "lu after matrix.__setitem__ (element/slice) on a factored matrix",
             "qr", "cholesky", "matrix.__add__", "__sub__", "__mul__", "__pow__", "transpose", "transpose_conj", "mnorm"]
 
 
@@ -495,7 +599,14 @@ def run(ctx):
             print("replaying recorded task on the real code:", json.dumps(LA.replay_task(fi["task"]))[:2000])
     for c in build_cases(g, n_cases):
         eng.add(c)
+    # histories on one matrix object (separate PRNG stream: the cases above stay what they were)
+    gh = MGen(ctx.seed * 1000003 + 3030, max_n=8)
+    n_hist = 80 if ctx.quick else 1500
+    for _ in range(n_hist):
+        eng.add(case_lu_history(gh))
     out = eng.run()
+    for k, v in gh.hist.items():
+        g.hist["history:" + k] = v
     shim_stats, shim_fail = run_exact_shim(g, 400 if ctx.quick else 20000)
     out["failing"] += shim_fail
     cov = LA.coverage_of(out, g,
@@ -504,7 +615,9 @@ def run(ctx):
         "combination, rank one), sizes 1..8, real and complex, entries small int / big int / dyadic / decimal converted at the "
         "working precision, precisions {30,53,64,100,113,200,300} and random 30..300, overdetermined m<=8; every case runs the "
         "real routine, the output is read exactly and the property instance is decided by the Lean checker in exact arithmetic; a "
-        "case is non-trivial when n>=2 and it is counted when the verdict is decided (ok/violates)",
+        "case is non-trivial when n>=2 and it is counted when the verdict is decided (ok/violates); plus histories on ONE matrix "
+        "object at one precision: lu(A) or LU_decomp(A), then 1-2 assignments (single element, row, column, block or strided slice, "
+        "with a matrix or a scalar value), optionally a second round, then lu(A), decided against the exact CURRENT contents",
         len(PROGRAMS))
     cov["checker_requests"] = eng.nlines
     cov["exact_shim_LU_decomp"] = {"cases": sum(shim_stats.values()), "verdicts": shim_stats,
